@@ -7,8 +7,10 @@ ID = "C19"
 # code after fixes/C19-exact-unused-imports.diff (VERIF_C19_MODEL=repaired)
 REPAIRED = os.environ.get("VERIF_C19_MODEL", "as-is") == "repaired"
 COQ_FILES = ["Common/Corr.v", "Model/Visibility.v", "Proofs/Visibility.v", "Model/Resolve.v",
-             "Model/UnusedImports.v", "Proofs/UnusedImports.v", "Props/C19.v",
-             "Model/UnusedImportsFixed.v", "Proofs/UnusedImportsFixed.v", "Props/C19_repaired.v"]
+             "Model/UnusedImports.v", "Proofs/UnusedImports.v", "Props/C19.v"]
+if REPAIRED:
+    # additional material, not part of the default check: the rule after the (not applied) repair
+    COQ_FILES += ["Model/UnusedImportsFixed.v", "Proofs/UnusedImportsFixed.v", "Props/C19_repaired.v"]
 PROPS = "Props/C19_repaired.v" if REPAIRED else "Props/C19.v"
 THEOREMS = ["C19_repaired_unused_warning_iff_removable", "C19_repaired_needed_never_warned",
             "C19_repaired_same_answers"] if REPAIRED else ["C19_resolution_independent_of_unmarked_imports", "C19_unused_warning_sound", "C19_needed_never_warned",
@@ -463,7 +465,8 @@ def world_term(case, facts):
 
 
 HEADER = ("From Coq Require Import List NArith ZArith Bool.\nImport ListNotations.\n"
-          "From PV Require Import Common.Corr Model.Visibility Model.Resolve Model.UnusedImports Model.UnusedImportsFixed.\nOpen Scope N_scope.\n")
+          "From PV Require Import Common.Corr Model.Visibility Model.Resolve Model.UnusedImports%s.\nOpen Scope N_scope.\n"
+          % (" Model.UnusedImportsFixed" if REPAIRED else ""))
 
 CLASS = {1: "marked-by-options-type-lookup", 2: "first-of-several-providers", 3: "sole-provider-of-a-lookup"}
 
@@ -471,7 +474,7 @@ CLASS = {1: "marked-by-options-type-lookup", 2: "first-of-several-providers", 3:
 def run(ctx):
     rng = ctx.rng
     cases = corpus()
-    for _ in range(ctx.budget(700, 12000)):
+    for _ in range(ctx.budget(500, 12000)):
         cases.append(gen_case(rng))
     ins = [{k: v for k, v in c.items() if not k.startswith("_")} for c in cases]
     outs = ctx.impl("unusedimports", ins)
